@@ -32,7 +32,29 @@ def begins : HOp → Bool
   | .ops [.nodeLeave x _] => x == selfName
   | _ => false
 
+def kvNat (impl : String) (k : String) : Option Nat :=
+  (impl.splitOn " ").findSome? fun t => match t.splitOn "=" with
+    | [k', v] => if k' == k then v.toNat? else none
+    | _ => none
+
 def step (s : St) (f : List String) (impl : String) : LineOut St :=
+  -- `ml2 a b prune`: two claims about the running local node back to back; monitored only (last op of a case)
+  if f.head? == some "ml2" then
+    match f with
+    | [_, a, b, _] =>
+      match a.toNat?, b.toNat?, kvNat impl "maxjoin" with
+      | some a, some b, some mj =>
+        let own := (s.base.prev.ltimeOf selfName).getD 0
+        let newest := max a b
+        let m : Option (String × String) :=
+          if !(impl.splitOn " ").contains "self=alive" then some ("self-not-alive", "after two claims the node does not list itself as alive")
+          else if !s.begunLeaving && own < newest && min a b + 2 ≤ newest && newest < two64 - 1 && !(newest < mj) then
+            some ("no-refutation", s!"claims about the running local node at times {a} and {b}: newest refuting join carries {mj}")
+          else none
+        { state := s, model := none, monitor := m }
+      | _, _, _ => { state := s, model := some "refute2 …" }
+    | _ => { state := s, model := some "bad-op" }
+  else
   let (n', out, h) := modelLine s.base.node f
   match h with
   | .bad => { state := s, model := some out }
